@@ -95,7 +95,9 @@ struct PpsGridChain {
       // re-validation against the congruences PPL reports for the result
       for (PS::const_iterator i = z.begin(); i != z.end(); ++i) { Grid c(i->pointset()); std::vector<Cg> cg = conv_cgs(c.congruences(), n); bool all = !Grid(i->pointset()).is_empty(); for (size_t k = 0; k < cg.size(); ++k) if (!ref::sat_cg(cg[k], wit)) all = false; if (all) inz = true; }
       if (!inx || inz) { violation("harness.bug.superset_witness", op.name); return false; }
-      violation(key("superset", op.name), "point " + show(wit) + " of the larger argument " + show_ps(LX) + " is not in the result " + show_ps(LZ) + "; y=" + show_ps(LY)); return false;
+      // limited extrapolation selects the congruences to keep with Grid::relation_with(Congruence), known to ignore point divisors
+      bool nonunit = false; for (PS::const_iterator i = x.begin(); i != x.end(); ++i) { Grid c(i->pointset()); Grid_Generator_System gs = c.grid_generators(); for (Grid_Generator_System::const_iterator g = gs.begin(); g != gs.end(); ++g) if (g->is_point() && g->divisor() != 1) nonunit = true; }
+      violation(key("superset", op.name, (nonunit && op.name.find("limited") != std::string::npos) ? ":point-divisor-not-1" : ""), "point " + show(wit) + " of the larger argument " + show_ps(LX) + " is not in the result " + show_ps(LZ) + "; y=" + show_ps(LY)); return false;
     }
     if (r < 0) hx::inconclusive("lattice_union_undecided");
     checked();
